@@ -134,7 +134,7 @@ class ShellSpec:
     """Plain description of a shell; builds the gbasis object and the protocol tokens."""
 
     def __init__(self, l, center, exps, coeffs, sph=False, cart=None, sphord=None, unit_norm=True,
-                 icenter=None, via_update=False, share=None):
+                 icenter=None, via_update=False, share=None, obj=None):
         self.l = int(l)
         self.center = [float(c) for c in center]
         self.exps = [float(e) for e in exps]
@@ -153,11 +153,14 @@ class ShellSpec:
         # share: shells of one basis with the same key are built from the very same exponent-array object (what make_contractions
         # does for the parts of an SP shell and for every atom of an element)
         self.share = share
+        # obj: shells of one basis with the same key and the same parameters are one and the same Python object, listed more than
+        # once (what `basis + [basis[0]]` or the union of two bases that share a shell gives)
+        self.obj = obj
 
     def copy(self, **kw):
         d = dict(l=self.l, center=list(self.center), exps=list(self.exps), coeffs=self.coeffs.copy(),
                  sph=self.sph, cart=self.cart, sphord=self.sphord, unit_norm=self.unit_norm,
-                 icenter=self.icenter, via_update=self.via_update, share=self.share)
+                 icenter=self.icenter, via_update=self.via_update, share=self.share, obj=self.obj)
         d.update(kw)
         return ShellSpec(**d)
 
@@ -237,13 +240,14 @@ class ShellSpec:
         return {"l": self.l, "center": self.center, "exps": self.exps,
                 "coeffs": self.coeffs.tolist(), "sph": self.sph, "cart": self.cart,
                 "sphord": self.sphord, "unit_norm": self.unit_norm, "via_update": self.via_update, "share": self.share,
-                "icenter": self.icenter}
+                "icenter": self.icenter, "obj": self.obj}
 
     @staticmethod
     def from_desc(d):
         return ShellSpec(d["l"], d["center"], d["exps"], d["coeffs"], d.get("sph", False),
                          d.get("cart"), d.get("sphord"), d.get("unit_norm", True),
-                         via_update=d.get("via_update", False), share=d.get("share"), icenter=d.get("icenter"))
+                         via_update=d.get("via_update", False), share=d.get("share"), icenter=d.get("icenter"),
+                         obj=d.get("obj"))
 
 
 def basis_tokens(specs):
@@ -254,8 +258,13 @@ def basis_tokens(specs):
 
 
 def make_basis(specs):
-    pool, out = {}, []
+    pool, objs, out = {}, {}, []
     for s in specs:
+        if s.obj is not None:
+            key = (s.obj, tuple(s.tokens()))
+            if key in objs:
+                out.append(objs[key])
+                continue
         if s.share is None or s.via_update:
             out.append(s.make())
         else:
@@ -263,6 +272,8 @@ def make_basis(specs):
             if key not in pool:
                 pool[key] = np.array(s.exps, dtype=float)
             out.append(s.make(shared_exps=pool[key]))
+        if s.obj is not None:
+            objs[(s.obj, tuple(s.tokens()))] = out[-1]
     return out
 
 
